@@ -910,9 +910,34 @@ class Evaluator:
         return res
 
     # ----------------------------------------------------------- expressions
+    def flag_bits(self, t: Term, _depth: int = 0) -> Optional[frozenset]:
+        """fold a term over members of an enum.Flag class into a set of base-member names"""
+        if _depth > 12:
+            return None
+        if isinstance(t, EnumMember):
+            ci = self.m.classes.get(t.cls)
+            if ci is None or not ci.is_flag or t.name not in ci.enum_members:
+                return None
+            v = self.enum_value(t, 0)
+            if isinstance(v, Call) and isinstance(v.func, Ext) and v.func.name.endswith('auto'):
+                return frozenset({(t.cls, t.name)})
+            return self.flag_bits(v, _depth + 1)
+        if isinstance(t, Op) and t.op in ('|', '&') and len(t.args) == 2:
+            a, b = self.flag_bits(t.args[0], _depth + 1), self.flag_bits(t.args[1], _depth + 1)
+            if a is None or b is None:
+                return None
+            return (a | b) if t.op == '|' else (a & b)
+        return None
+
     def truth(self, t: Term) -> Optional[bool]:
         if isinstance(t, Const):
             return bool(t.value)
+        if isinstance(t, Op) and t.op in ('|', '&'):
+            fb = self.flag_bits(t)
+            if fb is not None:
+                return bool(fb)
+        if isinstance(t, Call) and isinstance(t.func, Ext) and t.func.name == 'bool' and len(t.args) == 1:
+            return self.truth(t.args[0])
         if isinstance(t, (ClassRef, FuncRef, New, Lam, EnumMember)):
             return True
         if isinstance(t, TupleT):
@@ -995,6 +1020,12 @@ class Evaluator:
             if isinstance(base, TupleT) and isinstance(idx, Const) and isinstance(idx.value, int) and not store:
                 if -len(base.items) <= idx.value < len(base.items):
                     return base.items[idx.value]
+            if isinstance(base, TupleT) and isinstance(idx, SliceT) and not store and not any(isinstance(x, Op) and x.op == '*' for x in base.items):
+                def _c(t):
+                    return t is None or (isinstance(t, Const) and isinstance(t.value, int))
+                if _c(idx.lo) and _c(idx.hi) and _c(idx.step):
+                    sl = slice(idx.lo.value if idx.lo else None, idx.hi.value if idx.hi else None, idx.step.value if idx.step else None)
+                    return TupleT(base.items[sl], base.kind)
             if isinstance(base, ClassRef) and isinstance(idx, Const) and isinstance(idx.value, str):
                 ci = self.m.classes.get(base.name)
                 if ci is not None and ci.is_enum and idx.value in ci.enum_members:
@@ -1367,6 +1398,10 @@ class Evaluator:
             return TupleT(())
         if n == 'len' and len(args) == 1 and isinstance(args[0], TupleT) and not any(isinstance(x, Op) and x.op == '*' for x in args[0].items):
             return Const(len(args[0].items))
+        if n == 'bool' and len(args) == 1:
+            tv = self.truth(args[0])
+            if tv is not None and not isinstance(args[0], (New, ClassRef, FuncRef, Lam)):
+                return Const(tv)
         if n == 'str' and len(args) == 1:
             a = args[0]
             if isinstance(a, Const) and isinstance(a.value, str):
